@@ -20,17 +20,19 @@ REPLAYS = os.path.join(VERIF, "replays")
 EVIDENCE = os.path.join(VERIF, "evidence")
 KNOWN = os.path.join(VERIF, "known_findings.json")
 
-# property -> (level, [(config, share of the budget)] for quick, the same for thorough)
+# property -> (level, quick: [(config, number of runs)], thorough: [(config, share of the time budget)])
+# The quick tier executes a fixed number of runs per configuration, so that what it covers does not depend on the
+# speed of the machine; the thorough tier is time-boxed.
 PROPS = {
-    "C04": ("exploration", [("rel", 0.5), ("san", 0.5)], [("rel", 0.3), ("san", 0.3), ("o0", 0.1), ("o3", 0.1), ("c2", 0.1), ("dbg", 0.1)]),
-    "C10": ("exploration", [("rel", 0.5), ("san", 0.5)], [("rel", 0.4), ("san", 0.3), ("c2", 0.15), ("dbg", 0.15)]),
-    "C11": ("exploration", [("rel", 0.5), ("san", 0.5)], [("rel", 0.4), ("san", 0.3), ("c2", 0.15), ("o0", 0.15)]),
-    "C12": ("exploration", [("rel", 0.5), ("san", 0.5)], [("rel", 0.3), ("san", 0.3), ("o3", 0.1), ("c2", 0.1), ("o0", 0.1), ("dbg", 0.1)]),
-    "C13": ("exploration", [("rel", 0.5), ("san", 0.5)], [("rel", 0.3), ("san", 0.3), ("o0", 0.08), ("o3", 0.08), ("c2", 0.08), ("c3", 0.08), ("dbg", 0.08)]),
-    "C15": ("fault_enumeration", [("rel", 0.5), ("san", 0.5)], [("rel", 0.4), ("san", 0.4), ("c2", 0.1), ("dbg", 0.1)]),
-    "C16": ("exploration", [("rel", 0.35), ("o0", 0.3), ("san", 0.35)], [("rel", 0.2), ("o0", 0.15), ("o3", 0.15), ("c0", 0.1), ("c2", 0.15), ("c3", 0.1), ("san", 0.15)]),
-    "C18": ("exploration", [("rel", 0.5), ("san", 0.5)], [("rel", 0.3), ("san", 0.3), ("dbg", 0.2), ("c2", 0.2)]),
-    "C20": ("exploration", [("san", 0.7), ("relpc", 0.3)], [("san", 0.7), ("relpc", 0.3)]),
+    "C04": ("exploration", [("rel", 60000), ("san", 12000)], [("rel", 0.3), ("san", 0.3), ("o0", 0.1), ("o3", 0.1), ("c2", 0.1), ("dbg", 0.1)]),
+    "C10": ("exploration", [("rel", 24000), ("san", 6000)], [("rel", 0.4), ("san", 0.3), ("c2", 0.15), ("dbg", 0.15)]),
+    "C11": ("exploration", [("rel", 16000), ("san", 4000)], [("rel", 0.4), ("san", 0.3), ("c2", 0.15), ("o0", 0.15)]),
+    "C12": ("exploration", [("rel", 40000), ("san", 8000)], [("rel", 0.3), ("san", 0.3), ("o3", 0.1), ("c2", 0.1), ("o0", 0.1), ("dbg", 0.1)]),
+    "C13": ("exploration", [("rel", 10000), ("san", 2500)], [("rel", 0.3), ("san", 0.3), ("o0", 0.08), ("o3", 0.08), ("c2", 0.08), ("c3", 0.08), ("dbg", 0.08)]),
+    "C15": ("fault_enumeration", [("rel", 5000), ("san", 1200)], [("rel", 0.4), ("san", 0.4), ("c2", 0.1), ("dbg", 0.1)]),
+    "C16": ("exploration", [("rel", 3000), ("o0", 2500), ("san", 1500)], [("rel", 0.2), ("o0", 0.15), ("o3", 0.15), ("c0", 0.1), ("c2", 0.15), ("c3", 0.1), ("san", 0.15)]),
+    "C18": ("exploration", [("rel", 24000), ("san", 4000)], [("rel", 0.3), ("san", 0.3), ("dbg", 0.2), ("c2", 0.2)]),
+    "C20": ("exploration", [("san", 2400), ("relpc", 1600)], [("san", 0.7), ("relpc", 0.3)]),
 }
 REAL_VS_STUB = {
     "real_code": ["every function of /repo/src compiled from the current working tree (polyseed.c, lang.c, gf.c, storage.c, features.c, dependency.c, word lists)"],
@@ -217,7 +219,7 @@ def main():
     seed = int(os.environ.get("VERIF_SEED", "1"))
     level, quick, thorough = PROPS[prop]
     plan = quick if tier == "quick" else thorough
-    budget = float(os.environ.get("POLYSIM_BUDGET", "36" if tier == "quick" else "900"))
+    budget = float(os.environ.get("POLYSIM_BUDGET", "0" if tier == "quick" else "900"))
     nworkers = int(os.environ.get("POLYSIM_WORKERS", "16"))
     t0 = time.time()
     with ThreadPoolExecutor(4) as ex:
@@ -230,7 +232,12 @@ def main():
     try:
         for cfg, share in plan:
             nw = min(nworkers, 8) if cfg == "san" else nworkers      # 8 ASan workers is the knee
-            res = run_config(prop, cfg, exes[cfg], seed, budget * share, nw, tmp)
+            if tier == "quick" and budget <= 0:
+                res = run_config(prop, cfg, exes[cfg], seed, 240.0, nw, tmp, runs_cap=int(share))      # fixed number of runs; the time limit is a safety net only
+            elif tier == "quick":
+                res = run_config(prop, cfg, exes[cfg], seed, budget / len(plan), nw, tmp)               # POLYSIM_BUDGET given: time-boxed instead
+            else:
+                res = run_config(prop, cfg, exes[cfg], seed, budget * share, nw, tmp)
             workers_all[cfg] = res["workers"]
             if res["nondet"]:
                 harness_fault = "non-deterministic run in %s: %s" % (cfg, res["nondet"][0])
